@@ -20,6 +20,9 @@ RULE = (
 )
 ASSUMPTIONS = ["exceptions are compared by type", "the twin is built through the documented pickle protocol (__getstate__/__setstate__)"]
 
+# parts also run by 4 threads at once in one process (runner adds the jobs; see yv/ctx.py Ctx.threaded)
+SHARED = [("random", {"n": 700}, {"n": 15000})]
+
 
 def plan(tier, seed):
     thorough = tier == "thorough"
